@@ -1,11 +1,17 @@
 (* C01 - detection never crashes and always answers (the part that is logic: length guards).
-   PARTIAL: proved for every detector in the GoLite fragment (index and slice expressions carry a
-   Panic semantics that is stricter than Go's: bound len, not cap) and for the walk.  The hand models
-   of the offset-computing detectors (zip walk, CRX, OLE CLSID, matroska, tar), the JSON scanner, the
-   CSV reader and the charset sniffers are total Gallina functions over lists; their crash-freedom on
-   the real code is established by the correspondence run (recover, poisoned capacity, watchdog). *)
+   Proved: (1) for every detector in the GoLite fragment (regenerated combinator instances + function terms):
+   index and slice expressions carry a Panic semantics that is stricter than Go's (bound len, not cap) and a
+   verified bounds analysis accepts them all; (2) for the offset-computing detectors - zipContains (Xlsx, Docx,
+   Pptx, Jar, APK), CRX, matchOleClsid (Doc, Xls, Pub, Msg, Msi, Ppt), Ppt's fixed offsets, Matroska (WebM, Mkv),
+   Tar - "checked" transliterations in which every index / slice expression of the Go function carries its
+   run-time check never reach Panic, for any input, and compute the total models the other properties use
+   (uint32 wrap-around and 64-bit int arithmetic as in the code); (3) the walk always answers.
+   Not proved: the JSON scanner, NDJSON / CSV readers and the charset sniffers are modelled as total list
+   functions in suffix-passing style (no index expressions to check); stdlib calls are assumed not to panic; the
+   crash- and hang-freedom of the real code is exercised (recover, poisoned capacity, hostile length fields,
+   watchdog). *)
 From Verif Require Import Base.Bytes Model.Types Model.GoLite Model.Detect Gen.TreeData
-  Proofs.GoLiteP Proofs.SafeP.
+  Model.Zip Model.Ole Model.Mkv Model.Tar Model.Checked Proofs.GoLiteP Proofs.SafeP Proofs.CheckedP.
 
 (* the bounds analysis is sound: a term it accepts never indexes or slices outside the header *)
 Theorem C01_bounds_analysis_sound : forall p raw, safe p = true -> evalp p raw <> Panic.
@@ -36,6 +42,27 @@ Print Assumptions C01_partial_no_detector_panics.
 Theorem C01_detect_total : forall orc l x, exists p, detect_path orc l x = 0 :: p.
 Proof. exact detect_total. Qed.
 Print Assumptions C01_detect_total.
+
+(* the offset-computing detectors: every index / slice expression is in bounds, whatever the length fields say *)
+Theorem C01_offset_detectors_never_panic :
+  (forall skip raw sig mso, zip_contains_chk skip raw sig mso = Val (zip_contains skip raw sig mso)) /\
+  (forall raw, crx_chk raw = Val (crx_det raw)) /\
+  (forall inp clsid, match_ole_clsid_chk inp clsid = Val (match_ole_clsid inp clsid)) /\
+  (forall raw, ppt_chk raw = Val (ppt_det raw)) /\
+  (forall inp fl, matroska_chk inp fl = Val (matroska inp fl)) /\
+  (forall raw, tar_chk raw = Val (tar_det raw)).
+Proof.
+  repeat split; intros.
+  - apply zip_contains_ok. - apply crx_ok. - apply match_ole_clsid_ok. - apply ppt_ok. - apply matroska_ok. - apply tar_ok.
+Qed.
+Print Assumptions C01_offset_detectors_never_panic.
+
+(* non-vacuity: the same transliteration with CRX's guard weakened (seeded change C01-1 compares against len+1)
+   does reach Panic on a 16-byte input whose length fields sum to 1 *)
+Example C01_crx_weak_guard_panics :
+  (let raw := [67;114;50;52;0;0;0;0;1;0;0;0;0;0;0;0]%N in
+   rbind (from raw (N.to_nat ((16 + u32le (skipn 8 raw) + u32le (skipn 12 raw)) mod two32))) (fun r => evalb zip_bexp r)) = Panic.
+Proof. vm_compute. reflexivity. Qed.
 
 (* the analysis is not vacuous: a weakened guard is rejected, and the offending input panics *)
 Example C01_weak_guard_rejected :
